@@ -23,12 +23,14 @@ func init() {
 			"of the stated length over {a,b,A,\\n,1} and is non-trivial when at least one subject matches and one does not. " +
 			"mutations: every single-symbol insertion at every character boundary of every base pattern (deduplicated); non-trivial when the model does not classify the result as portable. " +
 			"protocol: BFS to fixpoint over (lastIndex value, writable) states of one RegExp object per (pattern, flags); every transition replayed on a fresh object; non-trivial when the operation matches or changes state. " +
+			"reentrant: finite product of callback scenarios (user code inside exec/test/match/replace/search/split that logs lastIndex/global, assigns lastIndex or calls exec/test/match re-entrantly) x initial lastIndex; non-trivial when a callback ran during matching or lastIndex changed. " +
 			"subst/flags: finite tables.",
 		Families: []engine.Family{
 			{Name: "patterns", Run: runPatterns},
 			{Name: "reset", Run: runReset},
 			{Name: "mutations", Run: runMutations},
 			{Name: "protocol", Run: runProtocol},
+			{Name: "reentrant", Run: runReentrant},
 			{Name: "subst", Run: runSubst},
 			{Name: "flags", Run: runFlags, Solo: true},
 		},
